@@ -47,6 +47,57 @@ theorem direct_solve (A : Matrix n n K) (Kv Lv : Matrix n m K) (piv : n → Prop
     exact sub_eq_zero.mp hw
   · rw [Matrix.mulVec_mulVec, hPP]
 
+/-! ### from the row-wise solves to the Sylvester equation of the implicit block
+
+`solve_sylvester_direct` answers a right-implicit request `(i, B)` row by row: row `a` of the result is the constrained solve for the level `e a`
+of the transposed problem, applied to row `a` of `Y P`; a left-implicit request `(B, i)` column by column.  Assembled, the rows (columns) solve
+the Sylvester equation with the ambient `H_0` on the implicit side and lie in the range of the projector. -/
+
+omit [StarRing K] [DecidableEq m] [Fintype m] in
+theorem rows_assemble {α : Type} [Fintype α] [DecidableEq α] (H P : Matrix n n K) (e : α → K) (x y : α → n → K)
+    (hsolve : ∀ a, (e a • (1 : Matrix n n K) - H.transpose).mulVec (x a) = P.transpose.mulVec (y a))
+    (hrange : ∀ a, P.transpose.mulVec (x a) = x a) :
+    Matrix.diagonal e * Matrix.of x - Matrix.of x * H = Matrix.of y * P ∧ Matrix.of x * P = Matrix.of x := by
+  constructor
+  · ext a c
+    have h := congrFun (hsolve a) c
+    rw [Matrix.sub_mulVec, Matrix.smul_mulVec, Matrix.one_mulVec] at h
+    simp only [Pi.sub_apply, Pi.smul_apply, smul_eq_mul, Matrix.mulVec, dotProduct, Matrix.transpose_apply] at h
+    rw [Matrix.sub_apply, Matrix.diagonal_mul, Matrix.mul_apply, Matrix.mul_apply]
+    simp only [Matrix.of_apply]
+    rw [show ∑ j, x a j * H j c = ∑ k, H k c * x a k from Finset.sum_congr rfl fun k _ => mul_comm _ _,
+      show ∑ j, y a j * P j c = ∑ k, P k c * y a k from Finset.sum_congr rfl fun k _ => mul_comm _ _]
+    exact h
+  · ext a c
+    have h := congrFun (hrange a) c
+    simp only [Matrix.mulVec, dotProduct, Matrix.transpose_apply] at h
+    rw [Matrix.mul_apply]
+    simp only [Matrix.of_apply]
+    rw [show ∑ j, x a j * P j c = ∑ k, P k c * x a k from Finset.sum_congr rfl fun k _ => mul_comm _ _]
+    exact h
+
+omit [StarRing K] [DecidableEq m] [Fintype m] in
+theorem cols_assemble {α : Type} [Fintype α] [DecidableEq α] (H P : Matrix n n K) (e : α → K) (x y : α → n → K)
+    (hsolve : ∀ a, (H - e a • (1 : Matrix n n K)).mulVec (x a) = P.mulVec (y a))
+    (hrange : ∀ a, P.mulVec (x a) = x a) :
+    H * (Matrix.of x).transpose - (Matrix.of x).transpose * Matrix.diagonal e = P * (Matrix.of y).transpose ∧
+      P * (Matrix.of x).transpose = (Matrix.of x).transpose := by
+  constructor
+  · ext c a
+    have h := congrFun (hsolve a) c
+    rw [Matrix.sub_mulVec, Matrix.smul_mulVec, Matrix.one_mulVec] at h
+    simp only [Pi.sub_apply, Pi.smul_apply, smul_eq_mul, Matrix.mulVec, dotProduct] at h
+    rw [Matrix.sub_apply, Matrix.mul_diagonal, Matrix.mul_apply, Matrix.mul_apply]
+    simp only [Matrix.transpose_apply, Matrix.of_apply]
+    rw [mul_comm (x a c)]
+    exact h
+  · ext c a
+    have h := congrFun (hrange a) c
+    simp only [Matrix.mulVec, dotProduct] at h
+    rw [Matrix.mul_apply]
+    simp only [Matrix.transpose_apply, Matrix.of_apply]
+    exact h
+
 end Greens
 end Pyma
 #print axioms Pyma.Greens.direct_solve
